@@ -1,8 +1,10 @@
 (* C13 - reads are pure and repeatable.  Reads of the Dataset model
    (Dataset/Model.v) are functions [ds -> ds * out] because the Python has
-   writes on several read paths: ConjunctiveGraph._graph copies a Graph object
-   into the store (reached from triples(context=), quads, __contains__), a full
-   pass of Dataset.contexts()/graphs() re-creates the default graph.  The
+   had writes on several read paths: ConjunctiveGraph._graph copied a Graph
+   object of another store into this one (reached from triples(context=), quads,
+   __contains__; repaired by the "fix:" commit for F19: _graph(c, copy=False) on
+   read paths), and a full pass of Dataset.contexts()/graphs() re-creates the
+   default graph (still so; it is reached from _graph for any Graph object).  The
    bodies of the serialisers, of the SPARQL engine, of rdflib.compare and of
    slicing/iteration are OPAQUE here: they build their answer from iteration
    only, so in the model they do not touch the state by construction; for them
@@ -88,17 +90,6 @@ Definition spec_ok (c : pcase) (o : pobs) : bool :=
   && Nat.eqb (length (snd o)) (length (p_reads c))
   && pure_run (fst o) (snd o).
 
-(* a read is given no Graph object backed by another store *)
-Definition read_nf (r : read) : bool :=
-  match r with
-  | RdTriples _ ca kw _ => negb (ca_foreign ca) && negb (match kw with Some a => foreign a | None => false end)
-  | RdQuads _ ca | RdContains _ ca _ => negb (ca_foreign ca)
-  | _ => true
-  end.
-
 (* well-formed: the building history consists of writes *)
 Definition pwf (c : pcase) : Prop :=
   forallb (fun o => negb (is_read o)) (p_build c) = true.
-
-(* trigger 1 (F19): some read is handed a foreign Graph object *)
-Definition pkf (c : pcase) : N := if forallb read_nf (p_reads c) then 0 else 1.
